@@ -133,3 +133,14 @@ claim("C17", "other",
       "the mean removed -> filter -> spectral derivative -> split -> detrend.",
       "Trusted: numpy/scipy FFT, taper, filters, freqs; floats as reals for the lemmas. Bounds: 1-4 windows of 64-300 samples, 4 steps, 4 tapers, 3 FFT lengths, scales 1e-4..1e3.",
       "contract lemmas (z3) + bounded native evaluation of the PSD / preprocessing contracts", "DESIGN.md 5/C17")
+
+claim("C18", "other",
+      "Proof: TimeSeries.__init__ and TimeSeries.from_timeseries give the new object fresh sample storage with element-wise equal content (so "
+      "copies, split windows and stored components - all built through them, see C04's SeismicRecording3C.__init__ and C10's split - share no "
+      "storage with their source); the properties n_samples, fs, fnyq and time(); TimeSeries.trim raises IndexError iff start < 0, start >= end "
+      "or end beyond the last sample, and otherwise keeps exactly the samples from the first one nearest start through the first one nearest "
+      "end (inclusive, start index <= end index). Bounded (labelled): JSON save/load restores every sample bit for bit, dt, the orientation "
+      "modulo 360 and the meta content after random sequences of trim / filter / detrend / taper / re-orientation (json is external); "
+      "np.shares_memory on every copy / split / component pair plus a behavioural edit test; record-level trim.",
+      TB + "A-NP-ALLOC (np.array copies), A-ARGMIN, A-JSON-FLOAT (repr(float) round trip, exercised not proved).",
+      "contract-based deductive verification (z3+cvc5) + bounded native persistence / aliasing checks", "DESIGN.md 5/C18")
